@@ -87,6 +87,24 @@ Definition spec_spellings : list (str * list str) := [
     s!".m.rule.encrypted"]);
   (s!"ruma_common::push::PredefinedContentRuleId", [s!".m.rule.contains_user_name"]) ].
 
+(** the event types the specification defines (client-server API v1.14), per generated `*EventType`
+    enumeration (the `.*` family m.secret_storage.key.* is a prefix arm and not listed) *)
+Definition spec_event_types : list (str * list str) := [
+  (s!"ruma_events::StateEventType",
+   [s!"m.room.aliases"; s!"m.room.avatar"; s!"m.room.canonical_alias"; s!"m.room.create"; s!"m.room.encryption"; s!"m.room.guest_access"; s!"m.room.history_visibility"; s!"m.room.join_rules"; s!"m.room.member"; s!"m.room.name"; s!"m.room.pinned_events"; s!"m.room.power_levels"; s!"m.room.server_acl"; s!"m.room.third_party_invite"; s!"m.room.tombstone"; s!"m.room.topic"; s!"m.space.child"; s!"m.space.parent"; s!"m.policy.rule.room"; s!"m.policy.rule.server"; s!"m.policy.rule.user"]);
+  (s!"ruma_events::MessageLikeEventType",
+   [s!"m.call.answer"; s!"m.call.invite"; s!"m.call.hangup"; s!"m.call.candidates"; s!"m.call.negotiate"; s!"m.call.reject"; s!"m.call.select_answer"; s!"m.key.verification.ready"; s!"m.key.verification.start"; s!"m.key.verification.cancel"; s!"m.key.verification.accept"; s!"m.key.verification.key"; s!"m.key.verification.mac"; s!"m.key.verification.done"; s!"m.reaction"; s!"m.room.encrypted"; s!"m.room.message"; s!"m.room.redaction"; s!"m.sticker"]);
+  (s!"ruma_events::TimelineEventType",
+   [s!"m.room.aliases"; s!"m.room.avatar"; s!"m.room.canonical_alias"; s!"m.room.create"; s!"m.room.encryption"; s!"m.room.guest_access"; s!"m.room.history_visibility"; s!"m.room.join_rules"; s!"m.room.member"; s!"m.room.name"; s!"m.room.pinned_events"; s!"m.room.power_levels"; s!"m.room.server_acl"; s!"m.room.third_party_invite"; s!"m.room.tombstone"; s!"m.room.topic"; s!"m.space.child"; s!"m.space.parent"; s!"m.policy.rule.room"; s!"m.policy.rule.server"; s!"m.policy.rule.user"; s!"m.call.answer"; s!"m.call.invite"; s!"m.call.hangup"; s!"m.call.candidates"; s!"m.call.negotiate"; s!"m.call.reject"; s!"m.call.select_answer"; s!"m.key.verification.ready"; s!"m.key.verification.start"; s!"m.key.verification.cancel"; s!"m.key.verification.accept"; s!"m.key.verification.key"; s!"m.key.verification.mac"; s!"m.key.verification.done"; s!"m.reaction"; s!"m.room.encrypted"; s!"m.room.message"; s!"m.room.redaction"; s!"m.sticker"]);
+  (s!"ruma_events::ToDeviceEventType",
+   [s!"m.dummy"; s!"m.room_key"; s!"m.room_key_request"; s!"m.forwarded_room_key"; s!"m.key.verification.request"; s!"m.key.verification.ready"; s!"m.key.verification.start"; s!"m.key.verification.cancel"; s!"m.key.verification.accept"; s!"m.key.verification.key"; s!"m.key.verification.mac"; s!"m.key.verification.done"; s!"m.room.encrypted"; s!"m.secret.request"; s!"m.secret.send"]);
+  (s!"ruma_events::GlobalAccountDataEventType",
+   [s!"m.direct"; s!"m.ignored_user_list"; s!"m.push_rules"; s!"m.secret_storage.default_key"; s!"m.identity_server"]);
+  (s!"ruma_events::RoomAccountDataEventType",
+   [s!"m.fully_read"; s!"m.tag"; s!"m.marked_unread"]);
+  (s!"ruma_events::EphemeralRoomEventType",
+   [s!"m.receipt"; s!"m.typing"]) ].
+
 Fixpoint find_decl_named (l : list decl) (name : str) : option decl :=
   match l with
   | [] => None
@@ -114,6 +132,7 @@ Definition spellings_ok (decls : list decl) (e : str * list str) : bool :=
   end.
 
 Definition all_specified_dedicated (decls : list decl) : bool := forallb (spellings_ok decls) spec_spellings.
+Definition all_event_types_dedicated (decls : list decl) : bool := forallb (spellings_ok decls) spec_event_types.
 
 Definition failing (decls : list decl) : list (str * list str) :=
   List.map (fun e => (fst e, match find_decl_named decls (fst e) with
